@@ -35,6 +35,10 @@ def run(prog, R, tier="quick", only_rule=None):
     # a held snapshot keeps finding its version: the version GC keeps the newest entry below the watermark
     from rules.props import c20 as _c20
     _c20.c20d(prog, R, rid="C02.h")
+    c02i(prog, R)
+    # files a held snapshot reads are never overwritten by a new file of the same id (id counters only move forward)
+    from rules.props import c04 as _c04
+    _c04.c04c(prog, R, rid="C02.j")
     c02a(prog, R)
     c02b(prog, R)
     c02c(prog, R)
@@ -323,8 +327,8 @@ def c02d(prog, R, rid="C02.d"):
     r.floor(6)
 
 
-def c02f(prog, R):
-    r = R.rule("C02.f", "versions are garbage-collected only below the caller's watermark", "K,D")
+def c02f(prog, R, rid="C02.f"):
+    r = R.rule(rid, "versions are garbage-collected only below the caller's watermark", "K,D")
     sm = StreamModel(prog)
     dk = sm.calls("drain_key")
     if len(dk) < 2:
@@ -360,3 +364,38 @@ def c02f(prog, R):
     ok = bool(news) and all(any(o.kind == "param" for o in origins(fl, c.args[1])) for c in news)
     r.check(ok, "%s|flush stream uses its seqno_threshold argument" % fl.path, "flush GC threshold is not the caller's", fl.where())
     r.floor(7)
+
+
+def c02i(prog, R, rid="C02.i"):
+    """The GC watermark - below which the version history is trimmed and older versions of a key are dropped - is a promise by
+    the *caller* that no snapshot at or below it is in use.  The tree cannot know that by itself: every internal source of a
+    watermark is either the caller's argument handed through unchanged or the constant 0 (trim nothing)."""
+    r = R.rule(rid, "GC watermarks come from the caller (or are 0), never from the tree's own counters", "D")
+    n = 0
+    for callee, argi in (("tree::Tree::inner_compact", 2), ("version::super_version::SuperVersions::maintenance", 2)):
+        for c in prog.all_calls(callee):
+            n += 1
+            bad = []
+            for (g, o) in deep_origins(prog, c.fn, c.args[argi]):
+                if o.kind == "const" and str(o.what) == "0":
+                    continue
+                if o.kind == "param":
+                    nm = g.local_name(o.what)
+                    fld = o.path[-1] if o.path else None
+                    if fld == "mvcc_gc_watermark" or (not o.path and nm in ("seqno_threshold", "mvcc_gc_watermark", "gc_watermark", "watermark", "eviction_seqno", "seqno")):
+                        continue
+                bad.append(repr(o))
+            r.check(not bad, "%s|%s(watermark = caller's argument or 0)" % (prog.fns.get(c.fn.root, c.fn).path, short(callee)),
+                    "a GC watermark is derived from %s instead of the caller's promise: versions / history entries that a held "
+                    "snapshot still needs can be trimmed" % bad, c.fn.where(c.bb), str(bad))
+    if n < 9:
+        r.anchor_missing("watermark hand-over sites (found %d, confirmed 9)" % n)
+    # Options.mvcc_gc_watermark is filled from inner_compact's parameter
+    f = prog.need("tree::Tree::inner_compact")
+    ok = False
+    for b in f.blocks:
+        for st in b["stmts"]:
+            if st["k"] == "assign" and "p" in st["to"] and st["to"]["p"][-1].startswith(".mvcc_gc_watermark"):
+                ok = any(o.kind == "param" and o.what == 3 for o in origins(f, st["rv"].get("op")))
+    r.check(ok, "tree::Tree::inner_compact|opts.mvcc_gc_watermark = the watermark parameter", "inner_compact does not hand its watermark on", f.where())
+    r.floor(10)
